@@ -103,6 +103,13 @@ func (fs *FS) Len() int {
 	return len(fs.Trace)
 }
 
+// ClearFaults removes the fault plan.
+func (fs *FS) ClearFaults() {
+	fs.mu.Lock()
+	fs.Faults = nil
+	fs.mu.Unlock()
+}
+
 // FiredCount returns the number of injected failures that happened.
 func (fs *FS) FiredCount() int {
 	fs.mu.Lock()
